@@ -7,6 +7,7 @@ IMPLEMENTATION's output."""
 import calendar
 import datetime
 import json
+import os
 
 import numpy as np
 
@@ -230,6 +231,418 @@ def gen_case(rng):
     return c
 
 
+# ---------------------------------------------------------------------------------------------------------
+# Generator lessons of seeded batch 4 (BUILD_GUIDE, round 6): a fixed quota of each input kind per run
+# ---------------------------------------------------------------------------------------------------------
+
+def mk(stream, cells, cls, vkind, *, pres=None, eres=None, porigin=None, eorigin=None, prem=True, tags=(), **extra):
+    cells = list(cells)
+    c = dict(stream=stream, cells=cells, cls=cls, pres=pres, eres=eres, porigin=porigin, eorigin=eorigin, prem=prem,
+             n_slices=len({x.metadata for x in cells}), vkind=vkind, tags=[stream] + list(tags))
+    c.update(extra)
+    return c
+
+
+def month_rows(start, res, n_periods, n_lags, lag_step=None, shape="square"):
+    """month-aligned rows from `start` (first of a month): n_periods periods of `res` months"""
+    lag_step = lag_step or res
+    rows = []
+    for i in range(n_periods):
+        ps = gen.add_months_int(start, i * res)
+        pe = gen.add_months_int(ps, res - 1, end=True)
+        k = n_lags if shape == "square" else max(1, min(n_lags, n_periods - i))
+        rows.append((ps, pe, [gen.add_months_int(pe, j * lag_step, end=True) for j in range(k)]))
+    return rows
+
+
+def slices_of(rng, rows_per_meta, cls, vkind, n_samples=3, fields=None, per_cell=False):
+    cells = []
+    for m, rows in rows_per_meta:
+        fs = fields or rng.sample(FIELDS, rng.randrange(1, 3))
+        cells += build(rng, rows, m, cls, fs, vkind, n_samples, per_cell)
+    rng.shuffle(cells)
+    return cells
+
+
+def sorted_metas(rng, n):
+    """n distinct metadata in the order in which the triangle will hold its slices"""
+    for _ in range(50):
+        ms = gen.rand_metas(rng, n, single_attr=rng.random() < 0.7)
+        if len(ms) == n:
+            try:
+                return sorted(ms)
+            except TypeError:
+                continue
+    return sorted(gen.rand_metas(rng, n))
+
+
+def large_cases(rng):
+    """lesson 1 — size thresholds: sample arrays of 256 / 1000 elements, slices of >= 256 cells, piles of >= 256
+    cells in one window, >= 256 windows, >= 256 slices"""
+    out = []
+    d0 = D(rng.randrange(2001, 2020), 1, 1)
+    # (a) big sample arrays, few cells
+    for S in (256, 1000, rng.choice([40, 80, 255, 257, 4096])):
+        metas = sorted_metas(rng, rng.choice([1, 2]))
+        rows = month_rows(d0, 3, 4, 2)
+        cls = rng.choice(["U", "C", "I"])
+        vk = rng.choice(["farr", "iarr"])
+        cells = slices_of(rng, [(m, rows) for m in metas], cls, vk, n_samples=S)
+        out.append(mk("large", cells, cls, vk, pres=rng.choice([(1, "year"), (6, "months")]),
+                      eres=rng.choice([None, (6, "months")]), tags=[f"samples={S if S in (256, 1000) else 'other'}"]))
+    # (b) one slice of >= 256 cells on the month grid (27 x 10 = 270 cells, square; or 300 ragged)
+    m = sorted_metas(rng, 1)[0]
+    rows = month_rows(d0, 1, rng.choice([26, 27, 32]), 10)
+    cls = rng.choice(["U", "C", "I"])
+    vk = rng.choice(["int", "float"])
+    out.append(mk("large", slices_of(rng, [(m, rows)], cls, vk), cls, vk, pres=rng.choice([(1, "year"), (1, "quarter")]),
+                  eres=rng.choice([None, (3, "months")]), tags=["cells>=256"]))
+    # (c) >= 256 one-day periods with ONE evaluation date: a pile of >= 256 cells in one year / 300-day window,
+    #     and >= 256 windows with a one-day / two-day target
+    for n_days, kind, vks in ((256, "pile", ["int", "float"]), (rng.choice([257, 300]), "pile", ["int", "float"]),
+                              (rng.choice([256, 257, 300]), "pile", ["iarr", "farr"]),
+                              (rng.choice([255, 256, 257]), "windows", ["int", "float", "iarr"])):
+        start = D(rng.randrange(2001, 2030), 1, rng.randrange(1, 20))
+        ev = start + datetime.timedelta(days=400)
+        rows = [(start + datetime.timedelta(days=i), start + datetime.timedelta(days=i),
+                 [ev] if i % 3 else [ev, ev + datetime.timedelta(days=30)]) for i in range(n_days)]
+        if kind == "pile":
+            opts = [((n_days, "days"), start - datetime.timedelta(days=1)), ((1, "year"), D(start.year - 1, 12, 31))]
+            tag = f"pile={n_days}" if n_days == 256 else "pile>256"
+        else:
+            opts = [((1, "day"), None), ((2, "days"), start - datetime.timedelta(days=1))]
+            tag = "windows>=128"
+        pres, por = rng.choice(opts)
+        cls = rng.choice(["U", "C"])
+        vk = rng.choice(vks)
+        out.append(mk("large", slices_of(rng, [(m, rows)], cls, vk, n_samples=2, fields=["paid_loss"]), cls, vk,
+                      pres=pres, porigin=por, tags=[tag, tag + ("-arrays" if "arr" in vk else "-scalars")]))
+    # (d) >= 256 slices of two cells each
+    n_sl = rng.choice([256, 257, 260])
+    metas = [Metadata(details={"k": j}, per_occurrence_limit=rng.choice([None, 0])) for j in range(n_sl)]
+    rows = month_rows(d0, 6, 2, 1)
+    late = rng.randrange(n_sl - 3, n_sl)
+    rpm = [(mm, rows if j != late else month_rows(gen.add_months_int(d0, -12), 6, 2, 1)) for j, mm in enumerate(metas)]
+    out.append(mk("large", slices_of(rng, rpm, "U", "int", fields=["paid_loss"]), "U", "int", pres=(1, "year"),
+                  tags=["slices>=256"]))
+    return out
+
+
+def overlap_cases(rng):
+    """lesson 2 — non-disjoint period layouts: periods of one slice that share a period_start (quarter stub, half
+    year, year to date) or a period_end; the code sums every source cell lying inside a window (double counting is
+    what the property states) and refuses as soon as one of them straddles"""
+    out = []
+    for _ in range(7):
+        y = rng.randrange(2001, 2026)
+        metas = sorted_metas(rng, rng.choice([1, 2, 3]))
+        n_lags = rng.randrange(1, 4)
+        kinds = rng.choice([["q1", "h1"], ["q1", "h1", "ytd"], ["q1", "q2", "h1"], ["h1", "ytd"], ["q1", "ytd", "h2"],
+                            ["m1", "q1", "h1", "ytd"], ["q4", "h2", "ytd"]])
+        spans = {"m1": (1, 1), "q1": (1, 3), "q2": (4, 6), "h1": (1, 6), "ytd": (1, 12), "h2": (7, 12), "q4": (10, 12)}
+        rows = []
+        for k in kinds:
+            a, b = spans[k]
+            ps, pe = D(y, a, 1), gen.month_end(y, b)
+            last = gen.month_end(y, 12)
+            rows.append((ps, pe, [gen.add_months_int(last, 6 * j, end=True) for j in range(n_lags)]))
+        if rng.random() < 0.5:                      # a second year laid out the same way
+            rows += [(D(ps.year + 1, ps.month, 1), gen.month_end(pe.year + 1, pe.month),
+                      [gen.add_months_int(e, 12, end=True) for e in evs]) for ps, pe, evs in rows]
+        cls = rng.choice(["U", "U", "C", "I"])
+        vk = rng.choice(["int", "float", "iarr", "farr"])
+        late_only = len(metas) > 1 and rng.random() < 0.5      # only the LAST slice is non-disjoint
+        rpm = [(m, rows if not late_only or j == len(metas) - 1 else rows[:1]) for j, m in enumerate(metas)]
+        pres = rng.choice([(1, "year"), (1, "year"), (6, "months"), (2, "quarters"), (3, "months"), (2, "years"), None])
+        eres = rng.choice([None, None, (1, "year"), (6, "months")])
+        por = rng.choice([None, gen.month_end(y - 1, 12), gen.month_end(y - 2, 6)])
+        out.append(mk("overlap", slices_of(rng, rpm, cls, vk), cls, vk, pres=pres, eres=eres, porigin=por,
+                      eorigin=rng.choice([None, gen.month_end(y, 12)]), tags=["same-start" if kinds[0] != "q4" else "same-end"]))
+    # day level: a week and a fortnight from the same day
+    start = D(rng.randrange(2001, 2030), rng.randrange(1, 13), rng.randrange(1, 29))
+    rows = []
+    for i in range(rng.randrange(1, 4)):
+        ps = start + datetime.timedelta(days=14 * i)
+        for L in (7, 14):
+            pe = ps + datetime.timedelta(days=L - 1)
+            rows.append((ps, pe, [ps + datetime.timedelta(days=13 + 14 * j) for j in range(2)]))
+    cls, vk = rng.choice(["U", "C", "I"]), rng.choice(["int", "farr"])
+    out.append(mk("overlap", slices_of(rng, [(m, rows) for m in sorted_metas(rng, 2)], cls, vk), cls, vk,
+                  pres=rng.choice([(14, "days"), (2, "weeks"), (1, "week"), (28, "day")]),
+                  porigin=start - datetime.timedelta(days=1 + 14 * rng.randrange(0, 3)), tags=["same-start", "day"]))
+    return out
+
+
+def half_month_rows(rng, y, m, n_periods, n_lags):
+    """periods 1st–15th and 16th–month end; evaluation dates on the 15th and on month ends"""
+    pts = []
+    for k in range(n_periods + n_lags + 1):
+        yy, mm = divmod((y * 12 + m - 1) + k // 2, 12)
+        pts.append(D(yy, mm + 1, 15) if k % 2 == 0 else gen.month_end(yy, mm + 1))
+    rows = []
+    for i in range(n_periods):
+        pe = pts[i]
+        ps = D(pe.year, pe.month, 1) if pe.day == 15 else D(pe.year, pe.month, 16)
+        rows.append((ps, pe, [pts[i + j] for j in range(n_lags)]))
+    return rows
+
+
+def offgrid_cases(rng):
+    """lesson 3 — dates off the month grid, with day/week AND month resolutions"""
+    out = []
+    y, m = rng.randrange(2001, 2026), rng.randrange(1, 13)
+    origin_me = lambda: gen.month_end(y - rng.randrange(0, 3), rng.randrange(1, 13))  # noqa: E731
+    # (a) half-month periods: month targets (month-end origin: Spec applies), month / day evaluation grids
+    for pres, eres in (((1, "month"), None), ((3, "months"), (1, "month")), ((1, "quarter"), (15, "days")),
+                       (None, (1, "month")), (None, (1, "quarter")), ((1, "month"), (1, "months"))):
+        metas = sorted_metas(rng, rng.choice([1, 2, 3]))
+        rows = half_month_rows(rng, y, m, rng.randrange(2, 9), rng.randrange(2, 6))
+        cls, vk = rng.choice(["U", "C", "I"]), rng.choice(["int", "float", "iarr", "farr"])
+        out.append(mk("offgrid", slices_of(rng, [(mm, rows) for mm in metas], cls, vk), cls, vk, pres=pres, eres=eres,
+                      porigin=rng.choice([None, origin_me()]), eorigin=rng.choice([None, origin_me()]),
+                      tags=["half-month"] + sorted({"day-res" if r[1] == "days" else "month-res" for r in (pres, eres) if r})))
+    # (b) month periods whose evaluation dates are the 15th AND the end of the same months: a month grid keeps
+    #     only the month ends, never the 15th of a grid month
+    for eres in ((1, "month"), (3, "months"), (1, "year"), (30, "days")):
+        metas = sorted_metas(rng, rng.choice([1, 2]))
+        res = rng.choice([1, 3])
+        rows = []
+        for ps, pe, evs in month_rows(D(y, (m - 1) // res * res % 12 + 1, 1), res, rng.randrange(1, 5), rng.randrange(1, 4)):
+            mixed = []
+            for e in evs:
+                mixed += [D(e.year, e.month, 15)] if e > pe and rng.random() < 0.7 else []
+                mixed += [e] if rng.random() < 0.8 else []
+            rows.append((ps, pe, sorted(set(mixed)) or [pe]))
+        cls, vk = rng.choice(["U", "C"]), rng.choice(["int", "float", "farr"])
+        out.append(mk("offgrid", slices_of(rng, [(mm, rows) for mm in metas], cls, vk), cls, vk, eres=eres,
+                      pres=rng.choice([None, None, (res, "months"), (1, "year")]),
+                      eorigin=rng.choice([None, origin_me(), rows[0][2][0]]), tags=["eval-15th"]))
+    # (c) periods from the 16th to the 15th: month units from an origin on the 15th (float add_months; model
+    #     comparison only) and day targets (Spec)
+    d = rng.choice([10, 15, 15, 20, 28])
+    rows = []
+    for i in range(rng.randrange(2, 7)):
+        a = gen.add_months_int(D(y, m, d), i)
+        b = gen.add_months_int(D(y, m, d), i + 1)
+        rows.append((a + datetime.timedelta(days=1), b, [gen.add_months_int(b, j) for j in range(rng.randrange(1, 4))]))
+    for pres, eres, por in (((1, "month"), None, D(y, m, d)), ((3, "months"), (1, "month"), gen.add_months_int(D(y, m, d), -3)),
+                            ((1, "month"), None, gen.month_end(y - 1, 12)), ((7, "days"), (1, "day"), rows[0][0])):
+        metas = sorted_metas(rng, rng.choice([1, 2]))
+        cls, vk = rng.choice(["U", "C", "I"]), rng.choice(["int", "farr"])
+        out.append(mk("offgrid", slices_of(rng, [(mm, rows) for mm in metas], cls, vk), cls, vk, pres=pres, eres=eres,
+                      porigin=por, eorigin=rng.choice([None, por, rows[0][1]]),
+                      tags=["mid-month-periods", "month-res" if pres[1] != "days" else "day-res"]))
+    # (c2) periods that ARE the library's own month windows from an origin on day d (walked with resolution_delta
+    #      like the code does), aggregated to 2 / 3 of them: float month arithmetic off the grid, mostly no straddle
+    from bermuda.date_utils import resolution_delta as lib_delta
+    origin = D(y, m, rng.choice([10, 14, 15, 16, 20, 27]))
+    pts = [origin]
+    for _ in range(rng.randrange(4, 10)):
+        pts.append(lib_delta(pts[-1], (1, "month")))
+    rows = [(a + datetime.timedelta(days=1), b, [pts[min(i + 1 + j, len(pts) - 1)] for j in range(2)])
+            for i, (a, b) in enumerate(zip(pts, pts[1:]))]
+    rows = [(ps, pe, sorted(set(evs))) for ps, pe, evs in rows]
+    for pres, eres in (((1, "month"), None), ((2, "months"), (1, "month")), ((3, "months"), None)):
+        metas = sorted_metas(rng, rng.choice([1, 2]))
+        cls, vk = rng.choice(["U", "C", "I"]), rng.choice(["int", "farr"])
+        out.append(mk("offgrid", slices_of(rng, [(mm, rows) for mm in metas], cls, vk), cls, vk, pres=pres, eres=eres,
+                      porigin=origin, eorigin=origin, tags=["library-windows-mid-month", "month-res"]))
+    # (d) week periods inside / across months with a month target
+    start = D(y, m, rng.randrange(1, 8))
+    rows = [(start + datetime.timedelta(days=7 * i), start + datetime.timedelta(days=7 * i + 6),
+             [start + datetime.timedelta(days=7 * i + 6 + 7 * j) for j in range(2)]) for i in range(rng.randrange(1, 5))]
+    cls, vk = rng.choice(["U", "C"]), "int"
+    out.append(mk("offgrid", slices_of(rng, [(mm, rows) for mm in sorted_metas(rng, 2)], cls, vk), cls, vk,
+                  pres=rng.choice([(1, "month"), (2, "months")]), eres=rng.choice([None, (1, "week")]),
+                  porigin=gen.month_end(y - 1, 12), eorigin=start - datetime.timedelta(days=1), tags=["weeks", "month-res"]))
+    return out
+
+
+def late_cases(rng):
+    """lesson 4 — 3–5 slices; the early ones share one layout, ONE late-sorting slice differs: it starts earlier or
+    later, is the only one that crosses a window boundary, or has the extreme evaluation dates"""
+    out = []
+    for variant in ["earlier", "later", "straddle", "evals-earlier", "evals-later", "earlier", "straddle", "longer",
+                    rng.choice(["earlier", "later", "straddle", "evals-earlier", "evals-later"])]:
+        k = rng.choice([3, 4, 5])
+        metas = sorted_metas(rng, k)
+        pos = rng.choice([k - 1, k - 1, k - 2])
+        res = rng.choice([1, 3, 6])
+        tgt = rng.choice([t for t in [3, 6, 12, 24] if t % res == 0 and t > res] or [12])
+        y0 = rng.randrange(2001, 2024)
+        start = D(y0, 1, 1)                                    # a window boundary of every target for a year-end origin
+        np_, nl = rng.randrange(2, 7), rng.randrange(1, 4)
+        base = month_rows(start, res, np_, nl, shape=rng.choice(["square", "triangle"]))
+        if variant == "earlier":
+            odd = month_rows(gen.add_months_int(start, -tgt * rng.choice([1, 2, 3])), res, np_, nl)
+        elif variant == "later":
+            odd = month_rows(gen.add_months_int(start, tgt * rng.choice([1, 2])), res, np_, nl)
+        elif variant == "longer":
+            odd = month_rows(start, res, np_ + tgt // res * 2, nl)
+        elif variant == "straddle":
+            odd = month_rows(gen.add_months_int(start, res if tgt > res and rng.random() < 0.7 else 1), tgt, 2, nl, lag_step=res)
+        elif variant == "evals-earlier":
+            odd = [(ps, pe, sorted({pe} | set(evs))) for ps, pe, evs in base]
+            base = [(ps, pe, [e for e in evs if e > base[0][1]] or [evs[-1]]) for ps, pe, evs in base]
+        else:
+            odd = [(ps, pe, evs + [gen.add_months_int(evs[-1], tgt * j, end=True) for j in (1, 2)]) for ps, pe, evs in base]
+        rpm = [(m, odd if j == pos else base) for j, m in enumerate(metas)]
+        cls, vk = rng.choice(["U", "U", "C", "I"]), rng.choice(["int", "float", "iarr", "farr"])
+        fields = rng.sample(FIELDS, 2)
+        mode = rng.choice(["period", "both", "both", "eval"]) if variant.startswith("evals") else rng.choice(["period", "period", "both"])
+        por = rng.choice([None, gen.month_end(y0 - 1, 12), gen.month_end(y0 + rng.randrange(-4, 5), 12)])
+        eor = rng.choice([None, gen.month_end(y0, rng.choice([3, 6, 12])), base[0][2][0]])
+        out.append(mk("late", slices_of(rng, rpm, cls, vk, fields=fields), cls, vk,
+                      pres=(tgt, "months") if mode != "eval" else None,
+                      eres=(rng.choice([res, tgt, 12]), "months") if mode != "period" else None,
+                      porigin=por, eorigin=eor, tags=[variant, f"slices={k}"]))
+    return out
+
+
+def options_cases(rng):
+    """lesson 5 — every optional argument given at once (also: both resolutions equal with equal origins, and
+    summarize_premium passed explicitly) and a call with no argument at all"""
+    out = []
+    for variant in ["all", "all", "all-same", "all-same", "all-same", "all-same", "all-prem-false", "none", "none"]:
+        res = rng.choice([1, 3])
+        y0 = rng.randrange(2001, 2024)
+        metas = sorted_metas(rng, rng.choice([1, 2, 3]))
+        if variant == "all-same":
+            # square rows whose evaluation dates run at least one whole target window past the last period: grid
+            # evaluation dates exist that are the end of NO aggregated period
+            tgt = rng.choice([(6, "months"), (2, "quarters"), (1, "year"), (12, "months"), (1, "Years"), (3, "months")])
+            tm = target_months(tgt)
+            rows = month_rows(D(y0, 1, 1), res, rng.randrange(2, 9), tm // res + rng.randrange(2, 5))
+        else:
+            tgt = rng.choice([t for t in MONTH_TARGETS if target_months(t) % res == 0])
+            rows = month_rows(D(y0, 1, 1), res, rng.randrange(2, 9), rng.randrange(1, 5), shape=rng.choice(["square", "triangle"]))
+        cls, vk = rng.choice(["U", "U", "C", "I"]), rng.choice(["int", "float", "iarr", "farr"])
+        cells = slices_of(rng, [(m, rows) for m in metas], cls, vk, fields=["paid_loss", "earned_premium"])
+        if variant == "none":
+            out.append(mk("options", cells, cls, vk, explicit_prem=False, tags=["none"]))
+            continue
+        por = rng.choice([gen.month_end(y0 - 1, 12), gen.month_end(y0 - rng.randrange(0, 3), rng.choice([3, 6, 9, 12]))])
+        if variant == "all-same":
+            por = gen.month_end(y0 - rng.randrange(1, 4), 12)
+            pres, eres, eor = tgt, tgt, por
+        else:
+            pres, eres = tgt, rng.choice(MONTH_TARGETS)
+            eor = rng.choice([por, gen.month_end(y0, rng.randrange(1, 13)), rows[0][2][0]])
+        out.append(mk("options", cells, cls, vk, pres=pres, eres=eres, porigin=por, eorigin=eor,
+                      prem=variant != "all-prem-false", explicit_prem=True, tags=[variant]))
+    return out
+
+
+def reseed(rng, cells, how):
+    """the same coordinates, metadata, fields, kinds and sizes; other values"""
+    out = []
+    for c in cells:
+        vals = {}
+        for k, v in c.values.items():
+            if how == "rescaled":
+                vals[k] = v * 2
+            elif isinstance(v, np.ndarray):
+                vals[k] = np.array([rng.randrange(0, 4096) for _ in range(v.size)], dtype=v.dtype)
+            elif isinstance(v, float):
+                vals[k] = float(gen.dyadic(rng))
+            else:
+                vals[k] = rng.randrange(0, 4096)
+        out.append(c.replace(values=vals))
+    return out
+
+
+def twin_cases(rng):
+    """lesson 6 — triangle A, then triangle B with the SAME coordinates, metadata and sizes but other values, with the
+    same arguments (consecutive cases of one process)"""
+    out = []
+    for how in ["rescaled", "reseeded", "reseeded"]:
+        res = rng.choice([1, 3, 6])
+        y0 = rng.randrange(2001, 2024)
+        metas = sorted_metas(rng, rng.choice([1, 2, 3]))
+        rows = month_rows(D(y0, 1, 1), res, rng.randrange(2, 9), rng.randrange(1, 4), shape=rng.choice(["square", "triangle"]))
+        cls, vk = rng.choice(["U", "C", "I"]), rng.choice(["int", "float", "iarr", "farr"])
+        a = slices_of(rng, [(m, rows) for m in metas], cls, vk, fields=rng.sample(FIELDS, 2))
+        b = reseed(rng, a, how)
+        kw = dict(pres=rng.choice([(12, "months"), (1, "year"), (6, "months"), None]),
+                  eres=rng.choice([None, (1, "year"), (res, "months")]),
+                  porigin=rng.choice([None, gen.month_end(y0 - 1, 12)]), explicit_prem=False, force_seq=False)
+        out.append(mk("twin", a, cls, vk, tags=["first"], **kw))
+        out.append(mk("twin", b, cls, vk, tags=["second-" + how], **kw))
+    return out
+
+
+def derived_cases(rng):
+    """lesson 7 — the input is DERIVED (filter / clip / slicing / select / right_edge) from a parent triangle whose
+    cached accessors were all read (and which was aggregated once); aggregate runs with default origins"""
+    out = []
+    for how in ["filter-slice", "filter-period", "clip-eval", "clip-period", "slice-int", "slice-index", "select",
+                "right-edge", "derive-fields"]:
+        res = rng.choice([1, 3])
+        y0 = rng.randrange(2001, 2024)
+        metas = sorted_metas(rng, rng.choice([2, 3]))
+        rows = month_rows(D(y0, 1, 1), res, rng.randrange(4, 10), rng.randrange(2, 5), shape=rng.choice(["square", "triangle"]))
+        cls, vk = rng.choice(["U", "C", "I"]), rng.choice(["int", "float", "iarr", "farr"])
+        fields = ["paid_loss", "reported_loss", "earned_premium"]
+        cells = slices_of(rng, [(m, rows) for m in metas], cls, vk, fields=fields)
+        keep_meta = metas[-1]
+        cut_p = rows[len(rows) // 2][0]
+        cut_e = rows[len(rows) // 2][2][0]
+        f = {
+            "filter-slice": lambda t, km=keep_meta: t.filter(lambda c: c.metadata == km),
+            "filter-period": lambda t, cp=cut_p: t.filter(lambda c: c.period_start >= cp),
+            "clip-eval": lambda t, ce=cut_e: t.clip(max_eval=ce),
+            "clip-period": lambda t, cp=cut_p: t.clip(min_period=cp),
+            "slice-int": lambda t: t[len(t) // 3:],
+            "slice-index": lambda t, cp=cut_p, km=keep_meta: t[cp:, :, km],
+            "select": lambda t: t.select(["paid_loss"]),
+            "right-edge": lambda t: t.right_edge,
+            "derive-fields": lambda t: t.derive_fields(paid_loss=lambda c: c["paid_loss"] * 2),
+        }[how]
+        pres = rng.choice([(1, "year"), (6, "months"), (1, "year"), None])
+        eres = rng.choice([None, (1, "year"), (6, "months")]) if pres is not None else (1, "year")
+        out.append(mk("derived", cells, cls, vk, pres=pres, eres=eres, explicit_prem=False, derive=f,
+                      parent_kw={"period_resolution": pres} if pres else {"eval_resolution": eres},
+                      force_seq=rng.random() < 0.3, tags=[how, "default-origins"]))
+    return out
+
+
+def falsy_cases(rng):
+    """lesson 8 — a limit / detail / value that is 0, 0.0, False or "" in EVERY slice and cell"""
+    out = []
+    for variant in ["limit-0", "details-falsy", "values-0", "values-0.0", "values-zero-arrays", "premium-0"]:
+        k = rng.choice([1, 2, 3])
+        if variant == "limit-0":
+            metas = [Metadata(per_occurrence_limit=rng.choice([0, 0.0]), details={"k": j}) for j in range(k)]
+        elif variant == "details-falsy":
+            metas = [Metadata(details={"flag": False, "n": 0, "s": ""}, loss_details={"x": 0.0}, country="",
+                              currency=["", "USD", "EUR"][j]) for j in range(k)]
+        else:
+            metas = sorted_metas(rng, k)
+        metas = sorted(metas)
+        y0 = rng.randrange(2001, 2024)
+        rows = month_rows(D(y0, 1, 1), 3, rng.randrange(2, 7), rng.randrange(1, 4))
+        cls = rng.choice(["U", "C", "I"])
+        vk = {"values-0": "int", "values-0.0": "float", "values-zero-arrays": rng.choice(["iarr", "farr"])}.get(
+            variant, rng.choice(["int", "float", "farr"]))
+        cells = slices_of(rng, [(m, rows) for m in metas], cls, vk, fields=["paid_loss", "earned_premium", "reported_claims"])
+        if variant.startswith("values") or variant == "premium-0":
+            zf = ["earned_premium"] if variant == "premium-0" else rng.choice([["paid_loss"], ["paid_loss", "reported_claims"],
+                                                                              ["paid_loss", "earned_premium", "reported_claims"]])
+            cells = [c.replace(values={f: (v * 0 if f in zf else v) for f, v in c.values.items()}) for c in cells]
+        out.append(mk("falsy", cells, cls, vk, pres=rng.choice([(1, "year"), (6, "months")]),
+                      eres=rng.choice([None, (1, "year")]), prem=rng.random() < 0.6, tags=[variant]))
+    return out
+
+
+def lesson_cases(rng, reps):
+    out = []
+    for _ in range(reps):
+        for g in (large_cases, overlap_cases, offgrid_cases, late_cases, options_cases, twin_cases, derived_cases,
+                  falsy_cases):
+            out += g(rng)
+    return out
+
+
 def kwargs_of(c):
     kw = {}
     if c["pres"] is not None:
@@ -280,89 +693,113 @@ def prime(rng, tri):
     call(lambda: tri.aggregate(period_resolution=(1, "year")))
 
 
+def run_case(ctx, rng, c, i, reqs, info):
+    """one case through the implementation (with the sequence checks for a share of the cases); appends the
+    driver request(s). `c["derive"]` (optional): the generated cells are a PARENT triangle whose cached accessors are
+    read first; the input of aggregate is `derive(parent)`."""
+    st, tri = call(Triangle, c["cells"])
+    if st != "ok" or len(tri) == 0:
+        return
+    if c.get("derive") is not None:
+        SEQ.read_accessors(tri)                       # warm every cached accessor of the parent
+        call(lambda: tri.aggregate(**c.get("parent_kw", {})))
+        st, tri = call(c["derive"], tri)
+        if st != "ok" or not isinstance(tri, Triangle) or len(tri) == 0:
+            ctx.count("lesson/derived-empty")
+            return
+    c.setdefault("explicit_prem", rng.random() < 0.3)
+    kw = kwargs_of(c)
+    seq = c.get("force_seq", rng.random() < 0.3)
+    pre = w_cells(tri.cells)                      # the input as it is BEFORE any call
+    if seq:
+        acc_in = SEQ.read_accessors(tri)          # (c) cached accessors of the input, read before the call
+        prime(rng, tri)                           # (b) other calls in the same process first
+    res = call(lambda: tri.aggregate(**kw))
+    impl = dump(res)
+    case = {k: v for k, v in request(c, pre, impl).items() if k != "impl"}
+    reqs.append(request(c, pre, impl))
+    info.append((c, case, impl, "direct"))
+    if w_cells(tri.cells) != pre:
+        ctx.fail("aggregate changed its INPUT triangle", case, {"after": w_cells(tri.cells)[:4]})
+    if seq:
+        ctx.count("sequence")
+        if res[0] == "ok":
+            bad = SEQ.accessors_consistent(res[1])
+            if bad:
+                ctx.fail(f"accessors of the aggregated triangle disagree with its cells: {bad}", case, {"impl": impl})
+        if SEQ.read_accessors(tri) != acc_in:
+            ctx.fail("accessors of the input triangle changed across aggregate", case)
+        # (a) spoil the first result in place, optionally aggregate the same triangle another way, call again
+        if res[0] == "ok" and SEQ.mutate_result(res[1], rng, source=tri):
+            ctx.count("result-shares-objects-with-input")
+        if rng.random() < 0.5:
+            call(lambda: tri.aggregate(period_resolution=rng.choice([(6, "month"), (1, "year"), (14, "days")]),
+                                       eval_resolution=rng.choice([None, (1, "year")]),
+                                       period_origin=datetime.date(1999, rng.randrange(1, 13), 28)))
+        impl2 = dump(call(lambda: tri.aggregate(**kw)))
+        same = (("err" in impl2) == ("err" in impl)) and (
+            impl2.get("err") == impl.get("err") if "err" in impl else canon(impl2["ok"]) == canon(impl["ok"]))
+        if not same:
+            ctx.fail("a second aggregate call on the same triangle with the same arguments gives another result",
+                     case, {"first": impl, "second": impl2})
+        if w_cells(tri.cells) != pre:
+            ctx.fail("aggregate changed its INPUT triangle (second call)", case, {"after": w_cells(tri.cells)[:4]})
+    ctx.count(f"stream={c['stream']}")
+    for tag in c.get("tags", ()):
+        ctx.count(f"lesson/{tag}")
+    ctx.count(f"class={c['cls']}")
+    ctx.count(f"slices={c['n_slices']}")
+    ctx.count(f"values={c['vkind']}")
+    ctx.count("mode=" + ("both" if c["pres"] and c["eres"] else "period" if c["pres"] else "eval" if c["eres"] else "none"))
+    ctx.count("impl=" + (impl.get("err") or "ok"))
+    if not kw:
+        ctx.count("options=none")
+    if len(kw) == 5:
+        ctx.count("options=all-five")
+    nontrivial = "ok" in impl and len(impl["ok"]) < len(tri)
+    ctx.case(digest=json.dumps([canon(case["cells"]), case["pres"], case["eres"], case["porigin"], case["eorigin"],
+                                case["prem"]], sort_keys=True),
+             nontrivial=nontrivial or "err" in impl,
+             sample={"stream": c["stream"], "class": c["cls"], "cells": len(tri), "pres": c["pres"], "eres": c["eres"],
+                     "porigin": str(c["porigin"]), "eorigin": str(c["eorigin"]),
+                     "out": len(impl["ok"]) if "ok" in impl else impl["err"]} if i < 4 else None)
+    if c["cls"] == "I":
+        # incremental in/out: aggregate(t) must equal to_incremental(aggregate(to_cumulative(t))), cell by cell,
+        # and the cumulative aggregate is what the Spec is evaluated on
+        st2, cum = call(lambda: tri.to_cumulative())
+        if st2 == "ok":
+            pre_cum = w_cells(cum.cells)
+            impl_cum = dump(call(lambda: cum.aggregate(**kw)))
+            reqs.append(request(c, pre_cum, impl_cum))
+            case2 = {k: v for k, v in reqs[-1].items() if k != "impl"}
+            info.append((c, case2, impl_cum, "cumulative-of-incremental"))
+            if "ok" in impl_cum:
+                st3, back = call(lambda: Triangle(cum.aggregate(**kw).cells).to_incremental())
+                via = {"ok": w_cells(back.cells)} if st3 == "ok" else {"err": back}
+            else:
+                via = impl_cum
+            same = (("err" in via) == ("err" in impl)) and ("err" in via or canon(via["ok"]) == canon(impl["ok"]))
+            if not same:
+                ctx.fail("incremental: aggregate(t) differs from to_incremental(aggregate(to_cumulative(t)))",
+                         case, {"direct": impl, "via_cumulative": via})
+
+
 def correspondence(ctx):
     rng = ctx.rng
     n = 30000 if ctx.thorough else 500
     reqs, info = [], []
     for i in range(n):
-        c = gen_case(rng)
-        st, tri = call(Triangle, c["cells"])
-        if st != "ok" or len(tri) == 0:
-            continue
-        c["explicit_prem"] = rng.random() < 0.3
-        kw = kwargs_of(c)
-        seq = rng.random() < 0.3
-        pre = w_cells(tri.cells)                      # the input as it is BEFORE any call
-        if seq:
-            acc_in = SEQ.read_accessors(tri)          # (c) cached accessors of the input, read before the call
-            prime(rng, tri)                           # (b) other calls in the same process first
-        res = call(lambda: tri.aggregate(**kw))
-        impl = dump(res)
-        case = {k: v for k, v in request(c, pre, impl).items() if k != "impl"}
-        reqs.append(request(c, pre, impl))
-        info.append((c, case, impl, "direct"))
-        if w_cells(tri.cells) != pre:
-            ctx.fail("aggregate changed its INPUT triangle", case, {"after": w_cells(tri.cells)[:4]})
-        if seq:
-            ctx.count("sequence")
-            if res[0] == "ok":
-                bad = SEQ.accessors_consistent(res[1])
-                if bad:
-                    ctx.fail(f"accessors of the aggregated triangle disagree with its cells: {bad}", case, {"impl": impl})
-            if SEQ.read_accessors(tri) != acc_in:
-                ctx.fail("accessors of the input triangle changed across aggregate", case)
-            # (a) spoil the first result in place, optionally aggregate the same triangle another way, call again
-            if res[0] == "ok" and SEQ.mutate_result(res[1], rng, source=tri):
-                ctx.count("result-shares-objects-with-input")
-            if rng.random() < 0.5:
-                call(lambda: tri.aggregate(period_resolution=rng.choice([(6, "month"), (1, "year"), (14, "days")]),
-                                           eval_resolution=rng.choice([None, (1, "year")]),
-                                           period_origin=datetime.date(1999, rng.randrange(1, 13), 28)))
-            impl2 = dump(call(lambda: tri.aggregate(**kw)))
-            same = (("err" in impl2) == ("err" in impl)) and (
-                impl2.get("err") == impl.get("err") if "err" in impl else canon(impl2["ok"]) == canon(impl["ok"]))
-            if not same:
-                ctx.fail("a second aggregate call on the same triangle with the same arguments gives another result",
-                         case, {"first": impl, "second": impl2})
-            if w_cells(tri.cells) != pre:
-                ctx.fail("aggregate changed its INPUT triangle (second call)", case, {"after": w_cells(tri.cells)[:4]})
-        ctx.count(f"stream={c['stream']}")
-        ctx.count(f"class={c['cls']}")
-        ctx.count(f"slices={c['n_slices']}")
-        ctx.count(f"values={c['vkind']}")
-        ctx.count("mode=" + ("both" if c["pres"] and c["eres"] else "period" if c["pres"] else "eval" if c["eres"] else "none"))
-        ctx.count("impl=" + (impl.get("err") or "ok"))
-        nontrivial = "ok" in impl and len(impl["ok"]) < len(tri)
-        ctx.case(digest=json.dumps([canon(case["cells"]), case["pres"], case["eres"], case["porigin"], case["eorigin"],
-                                    case["prem"]], sort_keys=True),
-                 nontrivial=nontrivial or "err" in impl,
-                 sample={"stream": c["stream"], "class": c["cls"], "cells": len(tri), "pres": c["pres"], "eres": c["eres"],
-                         "porigin": str(c["porigin"]), "eorigin": str(c["eorigin"]),
-                         "out": len(impl["ok"]) if "ok" in impl else impl["err"]} if i < 4 else None)
-        if c["cls"] == "I":
-            # incremental in/out: aggregate(t) must equal to_incremental(aggregate(to_cumulative(t))), cell by cell,
-            # and the cumulative aggregate is what the Spec is evaluated on
-            st2, cum = call(lambda: tri.to_cumulative())
-            if st2 == "ok":
-                pre_cum = w_cells(cum.cells)
-                impl_cum = dump(call(lambda: cum.aggregate(**kw)))
-                reqs.append(request(c, pre_cum, impl_cum))
-                case2 = {k: v for k, v in reqs[-1].items() if k != "impl"}
-                info.append((c, case2, impl_cum, "cumulative-of-incremental"))
-                if "ok" in impl_cum:
-                    st3, back = call(lambda: Triangle(cum.aggregate(**kw).cells).to_incremental())
-                    via = {"ok": w_cells(back.cells)} if st3 == "ok" else {"err": back}
-                else:
-                    via = impl_cum
-                same = (("err" in via) == ("err" in impl)) and ("err" in via or canon(via["ok"]) == canon(impl["ok"]))
-                if not same:
-                    ctx.fail("incremental: aggregate(t) differs from to_incremental(aggregate(to_cumulative(t)))",
-                             case, {"direct": impl, "via_cumulative": via})
+        run_case(ctx, rng, gen_case(rng), i, reqs, info)
+    # the eight generator lessons of seeded batch 4: a fixed quota of each input kind in EVERY run
+    reps = 0 if os.environ.get("VERIF_SKIP_LESSONS") else 8 if ctx.thorough else 1     # (knob for mutation experiments)
+    for j, c in enumerate(lesson_cases(rng, reps)):
+        run_case(ctx, rng, c, n + j, reqs, info)
 
     outs = common.Driver("drv_c08").run(reqs)
 
     for (c, case, impl, tag), out in zip(info, outs):
         model, spec = out["model"], out["spec"]
+        ctx.count(("spec-evaluated/" if spec is not None else "model-only/") + c["stream"])
         if spec is not None:
             exp = spec.pop("expectStraddle", None)
             emptied = spec.pop("emptiedSlice", False)
@@ -399,7 +836,21 @@ if __name__ == "__main__":
              "(period, evaluation-only and both); "
              "the data or the default; day stream — periods of 1/7/14 days, day/week targets (multiples and "
              "non-multiples), origins aligned or anywhere within -60..+90 days, month targets on day data; exotic "
-             "stream — month units from a non-month-end origin (model comparison only). SEQUENCE stream (30% of cases): cached accessors of the input read first, priming calls of summarize / summarize_cell_values / aggregate on another input with custom summary_fns and other options, the call under test with default arguments omitted, input dump compared before/after, accessors of the result compared with a fresh triangle of its cells, the result spoiled in place (arrays zeroed, dicts edited, list reversed; objects shared with the input left alone), optionally a differently configured call, then the same call again with an identical result required. distinct = distinct canonical "
+             "stream — month units from a non-month-end origin (model comparison only). SEQUENCE stream (30% of cases): cached accessors of the input read first, priming calls of summarize / summarize_cell_values / aggregate on another input with custom summary_fns and other options, the call under test with default arguments omitted, input dump compared before/after, accessors of the result compared with a fresh triangle of its cells, the result spoiled in place (arrays zeroed, dicts edited, list reversed; objects shared with the input left alone), optionally a differently configured call, then the same call again with an identical result required. LESSON streams (fixed quota in every run, 74 cases): large "
+             "(sample arrays of 256/1000/4096 elements, a slice of >= 256 cells, piles of 256 and of 257/300 one-day cells in one "
+             "window for scalars and arrays, >= 128/255 windows, >= 256 slices with a late slice starting a year earlier); "
+             "overlap (non-disjoint periods of one slice sharing a period_start or period_end: month stub / quarter / half "
+             "year / year to date, week + fortnight; the code sums every cell inside a window and refuses when one straddles "
+             "— model and Spec agree); offgrid (half-month periods with evaluation dates on the 15th and at month ends under "
+             "month AND day resolutions, month periods evaluated on the 15th of grid months, periods 16th-15th and the "
+             "library's own month windows from a mid-month origin [model only], weeks under a month target); late (3-5 "
+             "slices, the early ones share a layout, one LATE-sorting slice starts earlier / later / is longer / is the only "
+             "one that straddles / has the extreme evaluation dates); options (all five arguments at once, both "
+             "resolutions equal with equal origins and evaluation dates running past the last window, no argument at all); "
+             "twin (triangle A then triangle B with the same coordinates, metadata and sizes but rescaled / reseeded "
+             "values, same arguments); derived (parent's cached accessors read and parent aggregated, input = filter / clip / "
+             "slice / index / select / right_edge / derive_fields of it, default origins); falsy (limit 0 / 0.0, details "
+             "False / 0 / '', values 0 / 0.0 / zero arrays in every cell and slice). distinct = distinct canonical "
              "input dump; non-trivial = cells were merged/removed or the call raised",
         assumptions=["resolution quantities are positive; the input triangle is not empty",
                      "values are exactly representable (sums exact); NaN-free",
